@@ -4,6 +4,8 @@ set -e
 cd "$(dirname "$0")/.."
 export GOFLAGS=-mod=mod GOPROXY=off GOSUMDB=off GOTOOLCHAIN=local
 mkdir -p out evidence harness/bin
+python3 tools/assemble.py
+python3 tools/assemble.py
 ( cd coq && coq_makefile -f _CoqProject -o Makefile >/dev/null && timeout 3400 make -j16 2>&1 | tail -5 )
 python3 - <<'PY'
 import sys; sys.path.insert(0,'tools')
